@@ -872,6 +872,14 @@ fn dc_message(p: &Point, from: Side, i: usize) -> Vec<u8> {
 
 /// Push the whole burst without pacing, then the paced tail.
 async fn rtp_send(p: Point, from: Side, kind: &'static str, src: Arc<SampleStreamSource>) -> Result<(), Fail> {
+    // In the direct modes a udp-mux endpoint learns its peer from its own outbound traffic (by design, see the
+    // report): packets towards it are lost until it has sent something. A sender facing such an endpoint that is
+    // not muxed itself therefore starts a little later, so that "the mux endpoint has sent first" does not depend
+    // on how fast the machine schedules the two sender tasks.
+    let mux_on = |side: Side| if side == p.offerer { p.umux.on_offerer() } else { p.umux.on_answerer() };
+    if p.mode != Mode::WebRtc && mux_on(from.other()) && !mux_on(from) {
+        tokio::time::sleep(Duration::from_millis(400)).await;
+    }
     for i in 0..RTP_TOTAL {
         let data = payload(&p, from, kind, i);
         let sample = if kind == "video" {
@@ -1396,10 +1404,14 @@ async fn run_point_inner(p: Point, rec: &CaseRec) -> Check {
             } else {
                 let kind = if wrong[0].contains(" video:") { "video" } else { "audio" };
                 let role = if wrong[0].starts_with("offerer") { "offerer" } else { "answerer" };
-                Some(Fail::new(
+                // a diagnosis of the failure found above: it keeps that failure's class (definite / timing / stall)
+                let mut g = Fail::new(
                     format!("transceiver-on-wrong-transport:{kind}:{role}"),
                     format!("{}\n{}", wrong.join("; "), f.msg),
-                ))
+                );
+                g.timing = f.timing;
+                g.stall = f.stall;
+                Some(g)
             }
         }
         other => other,
